@@ -585,6 +585,8 @@ def container_method(pack, interp, recv, name, args, kwargs, node):
         if name == "copy":
             return recv.clone()
     k = kind_of(recv)
+    if k in (STR, BYTES) and ("%s.%s" % (k.name, name)) in pack.models and not (is_concrete(recv) and all(is_concrete(a) for a in args)):
+        return pack.models["%s.%s" % (k.name, name)](interp, recv, args, kwargs)
     if k in (STR, BYTES):
         if is_concrete(recv) and all(is_concrete(a) for a in args) and name in (
                 "startswith", "endswith", "strip", "lower", "upper", "replace", "split", "encode", "decode", "format",
